@@ -37,8 +37,40 @@ def c01_exact(res, games):
             res.fail("property", "C01 exact closed form (high precision): " + mm, dict(type="game", game=g))
 
 
+def c01_sum_q(res, rng):
+    """the literal (dict-shaped) Lean model of _sum_q against the real static method, bit for bit in structure
+    (keys in insertion order) and 1e-12 relative in value; non-decreasing ranks as _calculate_rankings produces them
+    AND arbitrary ranks (where the dict order differs from the index order)"""
+    lines, cases = [], []
+    for _ in range(size(res, 300, 1500)):
+        n = rng.randint(1, 8)
+        dense = random_weak_order(rng, n)
+        ranks = sorted(dense) if rng.random() < 0.7 else dense
+        # dense ranks as the code makes them: index of the first team of the tie group
+        if ranks == sorted(ranks):
+            ranks = [ranks.index(r) for r in ranks]
+        mus = [rng.uniform(-60, 60) for _ in range(n)]
+        c = rng.uniform(3, 30)
+        lines.append("SUMQ %s %d %s %s" % (core.f2h(c), n, " ".join(map(str, ranks)), " ".join(core.f2h(m) for m in mus)))
+        cases.append((c, ranks, mus))
+    outs = Driver().run(lines)
+    for (c, ranks, mus), o in zip(cases, outs):
+        kind = KINDS[len(ranks) % 5]
+        mod = core.MODULES[kind]
+        TR = getattr(mod, MODEL_CLS[kind].__name__ + "TeamRating")
+        trs = [TR(m, 1.0, [], r) for m, r in zip(mus, ranks)]
+        got = MODEL_CLS[kind]._sum_q(trs, c)
+        want = [core.h2f(x) for x in o.split(" ")[1:]]
+        res.traces += 1
+        res.count("sum_q_literal_comparisons")
+        if len(got) != len(want) or any(not close(a, b, 1e-12, 0.0) for a, b in zip(got, want)):
+            res.fail("correspondence", "C01: %s._sum_q(ranks=%r) = %r differs from the literal Lean model %r" % (kind, ranks, got, want),
+                     dict(type="sumq", c=c, ranks=ranks, mus=mus))
+
+
 def c01(res):
     rng = random.Random(res.seed)
+    c01_sum_q(res, rng)
     n = size(res, 2500, 12000)
     games = [gen_game(rng) for _ in range(n)]
     # every weak order of n <= 4 (quick) / n <= 5 (thorough) teams, sharded
@@ -742,6 +774,9 @@ def c06_league(res, rng, kind, ngames, games):
         tauopt = None if rng.random() < 0.6 else rng.choice([0.0, tau * 2, beta / 10, 3 * beta])
         lsopt = None if (always_ls or rng.random() < 0.7) else (rng.random() < 0.5)
         prior = [[(pool[p].mu, pool[p].sigma) for p in t] for t in teams_ids]
+        if any(abs(m_) > 20 * beta or s_ > 10 * beta for t in prior for (m_, s_) in t):
+            res.count("league_left_supported_range")     # |mu| <= 20 beta, sigma <= 10 beta: the supported numeric range
+            return
         g = make_game(kind, prior, oc=("R", dense), beta=beta, kappa=kappa, tau=tau,
                       ls=ls_model, tauopt=tauopt, lsopt=lsopt, gamma=("D", 0.0))
         kw = dict(ranks=list(dense))
@@ -986,7 +1021,7 @@ def c15_one(res, g):
     """per-call tau / limit_sigma vs constructor setting: bit-identical"""
     inp = dict(type="game", game=g)
     beta = g["beta"]
-    for t in (0.0, 1e-9 * beta, g["tau"], 7.5 * beta):
+    for t in (0.0, 1e-9 * beta, g["tau"], 7.5 * beta, 0, 1, 10):
         for b in (True, False, None):
             for model_tau in (g["tau"], 0.0, 3 * beta):
                 for model_ls in (False, True):
@@ -1097,7 +1132,10 @@ def c16_one(res, g, rng, games):
             if mm:
                 res.fail("property", "C16: posterior does not scale with the unit (factor %r): %s" % (k, mm), dict(type="c16", game=g, scale=k))
     if len(set(len(t) for t in g["teams"])) == 1:
-        for d in (rng.uniform(-5, 5) * g["beta"], 3 * g["beta"], -g["beta"]):
+        lo = min(m for t in g["teams"] for (m, _) in t)
+        hi = max(m for t in g["teams"] for (m, _) in t)
+        edge = [-20 * g["beta"] - lo, 20 * g["beta"] - hi] if hi - lo <= 40 * g["beta"] else []
+        for d in [rng.uniform(-5, 5) * g["beta"], 3 * g["beta"], -g["beta"]] + edge:
             g2 = shift_game(g, d)
             games.append(g2)
             res.count("shifts")
@@ -1132,6 +1170,14 @@ def c16(res):
         describe(res, g)
         c16_one(res, g, rng, games)
     corr_games(res, games, "correspondence", "C16 rate numbers")
+    import p_pred
+    for g in games[:: max(1, len(games) // 150)]:
+        p_pred.reconfigure_sequence(res, dict(g, teams=[list(t) for t in g["teams"]]), rng, "C16")
+    # large settled teams at the low edge of the range, shifted up and down
+    for _ in range(size(res, 60, 400)):
+        g = gen_game(rng, kind=rng.choice(KINDS), stratum="lowedge", options=False)
+        res.case(g); res.count("lowedge_games")
+        c16_one(res, g, rng, games)
     res.rule = ("each game rescaled by k in {1e-3, 1e3, 2, 10^U(-3,3)} (mu, sigma, beta, tau; kappa and the degree-0 gamma callbacks "
                 "unchanged): posterior/k compared with the original (PL, BT full/part), predictions compared (all models); equal-size "
                 "games shifted by constants: posterior mu shifted, sigma and predictions unchanged; all presentations also compared with "
